@@ -3,6 +3,7 @@
 From SV Require Import Model.PeakHelpers Spec.PeakHelpersSpec Proof.PeakHelpersProof.
 From SV Require Import Model.Peaks Spec.PeaksSpec Proof.PeaksProof Proof.PeaksTheorems Proof.PeaksExamples.
 From SV Require Import Model.Merging Spec.MergingSpec Proof.ReplaceMergedProof Proof.MergePeaksProof.
+From SV Require Import Model.PeakProps Spec.PeakPropsSpec Proof.PeakPropsProof.
 
 (* ------------------------------------------------------------------------------------------ *)
 (* symmetric_moving_average (repaired code, `just_out >= 0`) equals the defining windowed mean:
@@ -112,3 +113,13 @@ Theorem C19_merge_peaks_one_group_per_range : forall ns nch ps se gs,
           se gs.
 Proof. exact merge_peaks_groups. Qed.
 Print Assumptions C19_merge_peaks_one_group_per_range.
+
+(* ------------------------------------------------------------------------------------------ *)
+(* compute_index_of_fraction: for ascending fractions_desired the single pass returns, for every
+   fraction independently, the index at which the cumulative area fraction first reaches it
+   (iof1: linear inside the sample; 0 when never reached), with the documented special case that
+   the last entry is the peak length when the fraction being waited for at the end equals 1. *)
+Theorem C19_index_of_fraction_is_definition : forall A len data fs,
+  qsorted fs -> index_of_fraction A len data fs = iof_spec A len data fs.
+Proof. exact index_of_fraction_spec. Qed.
+Print Assumptions C19_index_of_fraction_is_definition.
